@@ -101,6 +101,22 @@ def gen_src_oneshot():
     return p.returncode, out + p.stdout
 
 
+def gen_c12():
+    """C12: SrcWork (accessors) + regenerate lean/RSVerif/Gen/SrcIter.lean from encoder_result.rs / decoder_result.rs"""
+    rc, out = gen_src_work()
+    if rc != 0:
+        return rc, out
+    o = os.path.join(VERIF, "lean", "RSVerif", "Gen", "SrcIter.lean")
+    p = subprocess.run([sys.executable, os.path.join(VERIF, "translate", "rs2lean_iter.py"), "/repo", o],
+                       stdout=subprocess.PIPE, stderr=subprocess.STDOUT, text=True)
+    return p.returncode, out + p.stdout
+
+
+TECH_TRI = ("Lean 4 machine-checked proof; the accessors of EncoderWork / DecoderWork (translate/rs2lean_work.py -> Gen/SrcWork.lean) and the "
+            "result iterators Recovery / RestoredOriginal with Drop of the result objects (translate/rs2lean_iter.py -> Gen/SrcIter.lean) are "
+            "TRANSLATED from the current Rust source on every run and the theorems are re-checked on the translation; the rest on a "
+            "hand-written model + differential correspondence with the crate")
+
 TECH_TRO = ("Lean 4 machine-checked proof; the one-shot functions encode / decode of src/lib.rs are TRANSLATED from the current Rust "
             "source on every run (translate/rs2lean_oneshot.py -> Gen/SrcOneShot.lean: sequences of calls of an abstract streaming "
             "API) and proved equal to the streaming sequences of the property; the rest on a hand-written model + differential "
@@ -274,7 +290,7 @@ PROPS = {
         "Direct oracle: accessor sweep incl. usize extremes and iterator exhaustion in both profiles, 1-12 consecutive rounds.",
         "cases = multi-round histories with implicit reset only; accessor contract evaluated on every result",
         profiles=["release", "dev"],
-        pre_lean=gen_src_work, technique=TECH_TRW,
+        pre_lean=gen_c12, technique=TECH_TRI,
         design_ref="DESIGN.md §6 C12",
     ),
     "C13": P(
